@@ -498,6 +498,9 @@ func runAlias(c *vl.Ctx, quick bool, compile func(string) fe.Result, getRunner f
 		for _, it := range items {
 			if strings.HasPrefix(it.status, "accepted by the front end, no native") {
 				dbg("ALIAS %s: %s", it.id, it.status)
+				if d := os.Getenv("VERIF_C06_DUMP"); d != "" {
+					os.WriteFile(d+"/"+strings.ReplaceAll(it.id, "/", "_")+".fer", []byte(aliasProgram([]*aliasItem{it})), 0o644)
+				}
 			}
 		}
 	}
